@@ -254,8 +254,10 @@ extern int mpt_connection_dispatch(MPT_STRUCT(connection) *con, MPT_TYPE(event_h
 			return MPT_ERROR(BadValue);
 		}
 		if (!(ans = mpt_command_get(&con->_wait, id))) {
-			mpt_log(0, _func, MPT_LOG(Error), "%s: %s (" PRIx64 ")",
+			mpt_log(0, _func, MPT_LOG(Error), "%s: %s (%" PRIx64 ")",
 			        MPT_tr("reply processing failed"), MPT_tr("message not registered"), id);
+			/* datagram is done with: buffer is shared with outgoing data */
+			dispatchFinished(con);
 			return MPT_ERROR(MissingBuffer);
 		}
 		msg.base = data + hlen;
